@@ -46,6 +46,22 @@ let handle (line : string) : string =
   | "mem" :: rest -> Fsm_io.run_mem rest
   | "node" :: rest -> Node_io.run_node rest
   | "board" :: rest -> run_board rest
+  | "tasks" :: rest ->
+    let a = Array.of_list rest in
+    let n = int_of_string a.(0) in
+    let hx s = if s = "-" then [] else bytes_of_hex s in
+    let ts = List.init n (fun k ->
+        let b = 1 + 5 * k in
+        let payload = if a.(b + 2) = "nil" then None else Some (hx (String.sub a.(b + 2) 2 (String.length a.(b + 2) - 2))) in
+        { M.tk_id = hx a.(b); tk_file = hx a.(b + 1); tk_payload = payload;
+          tk_start = z_of_dec a.(b + 3); tk_end = z_of_dec a.(b + 4) }) in
+    let sh l = if l = [] then "-" else hex_of_bytes l in
+    (match M.tasks_to_messages ts with
+     | M.BOk ms ->
+       String.concat " " (("tasks ok " ^ string_of_int (List.length ms)) ::
+                          List.map (fun m -> Printf.sprintf "%s %s %s %d" (sh m.M.ms_id) (sh m.M.ms_file) (sh m.M.ms_payload) (if m.M.ms_baked then 1 else 0)) ms)
+     | M.BErr _ -> "tasks err"
+     | M.BPanic -> "tasks panic")
   | "lag" :: rest ->
     (* lag x1 y1 x2 y2 ... : Lagrange combination at 0 *)
     let rec pairs l = match l with a :: b :: r -> (z_of_dec a, z_of_dec b) :: pairs r | _ -> [] in
